@@ -1,0 +1,47 @@
+//! `std::sync::Mutex` for state shared between scope tasks, under simulation: taking the lock
+//! is a preemption point, a simulated blocking thread which finds it taken hands the baton back
+//! (and retries) instead of blocking, and the thread the simulation runs on lets the simulated
+//! threads run until the lock is free.  So a thread may be preempted *inside* a critical section
+//! (at the preemption points it passes there) without stalling the simulation, and contention is
+//! something that happens in simulated runs.
+#![allow(missing_docs, unreachable_pub)]
+use std::sync::{LockResult, MutexGuard, TryLockError, TryLockResult};
+
+#[derive(Debug, Default)]
+pub struct Mutex<T>(std::sync::Mutex<T>);
+
+impl<T> Mutex<T> {
+    pub fn new(v: T) -> Self {
+        Self(std::sync::Mutex::new(v))
+    }
+
+    pub fn try_lock(&self) -> TryLockResult<MutexGuard<'_, T>> {
+        super::preempt();
+        self.0.try_lock()
+    }
+
+    pub fn lock(&self) -> LockResult<MutexGuard<'_, T>> {
+        let Some(sched) = super::scheduler() else {
+            return self.0.lock();
+        };
+        super::preempt();
+        loop {
+            match self.0.try_lock() {
+                Ok(g) => return Ok(g),
+                Err(TryLockError::Poisoned(p)) => return Err(p),
+                Err(TryLockError::WouldBlock) => {}
+            }
+            match super::current_blocking_id() {
+                // Give the holder a chance to run.
+                Some(id) => sched.blocking_yield(id, super::Yield::Contended),
+                // The simulation's own thread (inside a task poll): run simulated threads until
+                // the holder has left its critical section.
+                None => {
+                    if !sched.blocking_help() {
+                        return self.0.lock();
+                    }
+                }
+            }
+        }
+    }
+}
